@@ -118,9 +118,10 @@ class ForeignKey(object):
             self.alg = 19
             self.material = bytes([len(OID[kind])]) + OID[kind] + mpi_bytes(b'\x04' + nums.x.to_bytes(sz, 'big') + nums.y.to_bytes(sz, 'big'))
         elif kind.startswith('rsa'):
-            self.priv = rsa.generate_private_key(public_exponent=65537, key_size=int(kind[3:]))
+            # 'rsa2048' is algorithm 1 (encrypt or sign); 'rsa2048#3' the deprecated sign-only id 3 (RFC 4880 9.1: still to be accepted)
+            self.priv = rsa.generate_private_key(public_exponent=65537, key_size=int(kind[3:].split('#')[0]))
             nums = self.priv.public_key().public_numbers()
-            self.alg = 1
+            self.alg = int(kind.split('#')[1]) if '#' in kind else 1
             self.material = mpi(nums.n) + mpi(nums.e)
         elif kind.startswith('dsa'):
             self.priv = dsa.generate_private_key(key_size=int(kind[3:]))
@@ -167,7 +168,7 @@ class ForeignKey(object):
 
     def sign_digest(self, digest, hname):
         """-> list of integers making up the signature value (RFC 4880 5.2.2 / RFC 6637 / EdDSA draft)."""
-        if self.alg == 1:
+        if self.alg in (1, 3):
             s = self.priv.sign(digest, padding.PKCS1v15(), utils.Prehashed(HASH_CLS[hname]()))
             return [int.from_bytes(s, 'big')]
         if self.alg == 19:
